@@ -30,6 +30,9 @@ def make_params(draw):
             t = torch.randn(tuple(shp), generator=gen, dtype=torch.float64).to(pdt)
             ps.append(torch.nn.Parameter(t))
         out.append(ps)
+    for gi, pi in draw.get("frozen0", []):
+        if gi < len(out) and pi < len(out[gi]):
+            out[gi][pi].requires_grad_(False)          # frozen when the optimizer is constructed
     return out
 
 
